@@ -51,7 +51,7 @@ RULE = (
     "after num_operations steps the schedule is complete and feasible; "
     "solver(instance) returns a complete feasible schedule with elapsed_time "
     ">= 0 and solved_by == class name (also for a user subclass); "
-    "solve(instance, dispatcher) finishes a partially dispatched dispatcher. Non-trivial: some state offered >=2 "
+    "solve(instance, dispatcher) finishes a partially dispatched dispatcher (optionally one that went through an earlier episode and a reset()). Non-trivial: some state offered >=2 "
     "available operations with different criterion values."
 )
 BUDGET = {"quick": 1500, "thorough": 10000}
@@ -338,6 +338,15 @@ def check_case(case, ctx):
     inst_pre = build_instance(inst)
     own_filter = [solver.ready_operations_filter, None, FILTER_FUNCS["dominated_operations"]][case["seed"] % 3]
     d_pre = Dispatcher(inst_pre, own_filter)
+    if (case["seed"] // 3) % 2:
+        # the dispatcher has been through an earlier (partial or whole)
+        # episode and a reset() before it is handed over
+        n_old = 1 + (case["seed"] // 6) % n
+        for jj, pp, mm2, _s, _e in m.order[:n_old]:
+            d_pre.dispatch(inst_pre.jobs[jj][pp], mm2)
+        d_pre.schedule.makespan()
+        d_pre.reset()
+        ctx.label("solve_after_reset")
     for jj, pp, mm2, _s, _e in m.order[:n_pre]:
         d_pre.dispatch(inst_pre.jobs[jj][pp], mm2)
     random.seed(case["seed"] + 2)
